@@ -109,508 +109,382 @@ def mdel(name, *tags):
 
 WORLDS = []
 
+
+class B:
+    """Collects the build lines and queries of one world.  `leaf` adds a cells that reads the thing under test
+    plus the standard wrappers around it, so that every kind of leaf path is also exercised through a cached
+    caller, through an uncached intermediate, and from a caller in another space (Z)."""
+
+    def __init__(self, name):
+        self.name = name
+        self.build = ["Z = m.new_space('Z')"]
+        self.late = []              # cells of Z (appended after everything else exists)
+        self.queries = []
+
+    def add(self, *lines):
+        self.build.extend(lines)
+        return self
+
+    def q(self, expr, *tags, unc=()):
+        self.queries.append(q(expr, *tags, unc=unc))
+        return self
+
+    def leaf(self, var, path, name, body, *tags, wrap="cuxy", style="lambda", unc=()):
+        dotted = "_model" + path[1:]            # "m.S.Ch" -> "_model.S.Ch"
+        dyn = bool(unc)                         # cached flags may change: uncached-ness is tagged dynamically
+        self.build.append(cells(var, name, body, style=style))
+        self.q("%s.%s()" % (path, name), *tags)
+        if "c" in wrap:
+            self.build.append(cells(var, name + "_c", "%s() + 1" % name))
+            self.q("%s.%s_c()" % (path, name), *tags, "via:cached-callee", unc=unc)
+        if "u" in wrap:
+            self.build.append(cells(var, name + "_u", body, cached=False))
+            self.build.append(cells(var, name + "_uc", "%s_u() + 2" % name, style="def"))
+            self.q("%s.%s_uc()" % (path, name), *tags, *(() if dyn else ("via:uncached-callee",)),
+                   unc=tuple(unc) + ((path[2:] + "." + name + "_u",) if dyn else ()))
+        if "x" in wrap:
+            self.late.append(cells("Z", name + "_x", "%s.%s() + 3" % (dotted, name)))
+            self.q("m.Z.%s_x()" % name, *tags, "via:cached-callee", "via:attr-cells", "caller-in-other-space", unc=unc)
+        if "y" in wrap:
+            assert "u" in wrap
+            self.late.append(cells("Z", name + "_y", "%s.%s_u() + 4" % (dotted, name)))
+            self.q("m.Z.%s_y()" % name, *tags, *(() if dyn else ("via:uncached-callee",)), "via:attr-cells",
+                   "caller-in-other-space", unc=tuple(unc) + ((path[2:] + "." + name + "_u",) if dyn else ()))
+        return self
+
+    def world(self, edits):
+        return World(self.name, self.build + self.late, self.queries, edits)
+
+
 # ------------------------------------------------------------------------------------------------------------
 # W1  a reference of a space (S.x), reached by name, through cached / uncached cells, from another space by
 #     attribute path, through a reference to the space; the model-level x behind it (fallback / shadowing).
-WORLDS.append(World(
-    "space-ref",
-    build=[
-        "S = m.new_space('S')",
-        "S.x = 3",
-        "T = m.new_space('T')",
-        "T.s = S",
-        cells("S", "a", "x"),
-        cells("S", "ca", "a() + 100", style="def"),
-        cells("S", "u", "x * 2", cached=False),
-        cells("S", "cu", "u() + 200"),
-        cells("S", "ccu", "cu() + 1000"),
-        cells("S", "sp", "_space.x + 300"),
-        cells("T", "t", "_model.S.x + 400", style="def"),
-        cells("T", "ts", "s.x + 500"),
-        cells("T", "tu", "_model.S.x + 600", cached=False),
-        cells("T", "ctu", "tu() + 1"),
-        cells("T", "ta", "_model.S.a() + 700"),
-        cells("T", "txu", "_model.S.u() + 800"),
-    ],
-    queries=[
-        q("m.S.a()", "name-space-ref"),
-        q("m.S.ca()", "name-space-ref", "via:cached-callee"),
-        q("m.S.cu()", "name-space-ref", "via:uncached-callee"),
-        q("m.S.ccu()", "name-space-ref", "via:uncached-callee", "via:cached-callee"),
-        q("m.S.sp()", "attr-self-space-ref"),
-        q("m.T.t()", "attr-model-space-ref"),
-        q("m.T.ts()", "attr-refd-space-ref"),
-        q("m.T.ctu()", "attr-model-space-ref", "via:uncached-callee"),
-        q("m.T.ta()", "name-space-ref", "via:cached-callee", "via:attr-cells"),
-        q("m.T.txu()", "name-space-ref", "via:uncached-callee", "caller-in-other-space"),
-    ],
-    edits=[
-        sref("m.S", "x", 5),
-        sref("m.S", "x", 7),
-        sdel("m.S", "x"),
-        mref("x", 11, "same-name-as-space-ref"),
-        mref("x", 13, "same-name-as-space-ref"),
-        mdel("x", "same-name-as-space-ref"),
-        sref("m.S", "x", 17, how="absolute"),
-        sref("m.T", "s", "m.T", "ref-to-space-retarget"),
-        sref("m.T", "x", 19, "other-space"),
-        e("m.S.a.formula = 'lambda: x + 10000'", "formula-set"),
-        e("m.S.a = 23", "value-assign"),
-        e("m.S.a.clear_all()", "value-clear"),
-    ],
-))
+b = B("space-ref")
+b.add("S = m.new_space('S')", "S.x = 3", "T = m.new_space('T')", "T.s = S")
+b.leaf("S", "m.S", "a", "x", "name-space-ref", style="def")
+b.leaf("S", "m.S", "sp", "_space.x + 300", "attr-self-space-ref", wrap="cu")
+b.leaf("T", "m.T", "t", "_model.S.x + 400", "attr-model-space-ref", wrap="cu")
+b.leaf("T", "m.T", "ts", "s.x + 500", "attr-refd-space-ref", wrap="c")
+WORLDS.append(b.world([
+    sref("m.S", "x", 5),
+    sref("m.S", "x", 7),
+    sdel("m.S", "x"),
+    mref("x", 11, "same-name-as-space-ref"),
+    mref("x", 13, "same-name-as-space-ref"),
+    mdel("x", "same-name-as-space-ref"),
+    sref("m.S", "x", 17, how="absolute"),
+    sref("m.T", "s", "m.T", "ref-to-space-retarget"),
+    sref("m.T", "x", 19, "other-space"),
+    e("m.S.a.formula = 'lambda: x + 10000'", "formula-set"),
+    e("m.S.a = 23", "value-assign"),
+    e("m.S.a.clear_all()", "value-clear"),
+]))
 
 # ------------------------------------------------------------------------------------------------------------
 # W2  a child space: its reference read by attribute path (Ch.y), its cells called by attribute path, deeper
-#     paths from another space; deletion / re-creation / renaming of the child and of the parent.
-WORLDS.append(World(
-    "child-space",
-    build=[
-        "S = m.new_space('S')",
-        "Ch = S.new_space('Ch')",
-        "Ch.y = 4",
-        "S.z = 2",
-        "T = m.new_space('T')",
-        "T.y = 1",
-        cells("Ch", "up", "_space.parent.z + 600"),
-        cells("Ch", "f", "y + 10"),
-        cells("S", "c", "Ch.y", style="def"),
-        cells("S", "cf", "Ch.f() + 100"),
-        cells("S", "u", "Ch.y * 2", cached=False),
-        cells("S", "cu", "u() + 200"),
-        cells("S", "uf", "Ch.f() * 2", cached=False),
-        cells("S", "cuf", "uf() + 300"),
-        cells("T", "tc", "_model.S.Ch.y + 400"),
-        cells("T", "tf", "_model.S.Ch.f() + 500", style="def"),
-    ],
-    queries=[
-        q("m.S.Ch.f()", "name-space-ref"),
-        q("m.S.c()", "attr-child-ref"),
-        q("m.S.cf()", "attr-child-cells"),
-        q("m.S.cu()", "attr-child-ref", "via:uncached-callee"),
-        q("m.S.cuf()", "attr-child-cells", "via:uncached-callee"),
-        q("m.T.tc()", "attr-deep-ref"),
-        q("m.T.tf()", "attr-deep-cells"),
-        q("m.S.Ch.up()", "attr-parent-ref"),
-    ],
-    edits=[
-        sref("m.S.Ch", "y", 6),
-        sdel("m.S.Ch", "y"),
-        mref("y", 8, "same-name-as-space-ref"),
-        mdel("y", "same-name-as-space-ref"),
-        e("del m.S.Ch", "space-delete"),
-        e("m.S.new_space('Ch')", "space-create"),
-        e("m.S.new_space('Ch', refs={'y': 9})", "space-create"),
-        e("m.S.Ch.rename('Kid')", "space-rename"),
-        e("m.S.Kid.rename('Ch')", "space-rename"),
-        e("m.S.Ch = m.T", "space-ref-set", "ref-takes-name-of-deleted-space"),
-        e("m.S.Ch.f.formula = 'lambda: y + 20'", "formula-set"),
-        e("del m.S.Ch.f", "cells-delete"),
-        e(cells("m.S.Ch", "f", "y + 30"), "cells-create"),
-        e(cells("m.T", "f", "y + 40"), "cells-create", "other-space"),
-        e("m.S.Ch.f.rename('f2')", "cells-rename"),
-        e("m.S.rename('S2')", "space-rename", "parent-space"),
-        sref("m.S", "z", 5, "in-parent-space"),
-    ],
-))
+#     paths from another space, the parent's reference read from the child; deletion / re-creation / renaming
+#     of the child and of the parent.
+b = B("child-space")
+b.add("S = m.new_space('S')", "Ch = S.new_space('Ch')", "Ch.y = 4", "S.z = 2", "T = m.new_space('T')", "T.y = 1")
+b.leaf("Ch", "m.S.Ch", "f", "y + 10", "name-space-ref", wrap="c")
+b.leaf("S", "m.S", "c", "Ch.y", "attr-child-ref", wrap="cuxy", style="def")
+b.leaf("S", "m.S", "cf", "Ch.f() + 100", "attr-child-cells", wrap="u")
+b.leaf("T", "m.T", "tc", "_model.S.Ch.y + 400", "attr-deep-ref", wrap="c")
+b.leaf("T", "m.T", "tf", "_model.S.Ch.f() + 500", "attr-deep-cells", wrap="", style="def")
+b.leaf("Ch", "m.S.Ch", "up", "_space.parent.z + 600", "attr-parent-ref", wrap="c")
+WORLDS.append(b.world([
+    sref("m.S.Ch", "y", 6),
+    sdel("m.S.Ch", "y"),
+    mref("y", 8, "same-name-as-space-ref"),
+    mdel("y", "same-name-as-space-ref"),
+    e("del m.S.Ch", "space-delete"),
+    e("m.S.new_space('Ch')", "space-create"),
+    e("m.S.new_space('Ch', refs={'y': 9})", "space-create"),
+    e("m.S.Ch.rename('Kid')", "space-rename"),
+    e("m.S.Kid.rename('Ch')", "space-rename"),
+    e("m.S.Ch = m.T", "space-ref-set", "ref-takes-name-of-deleted-space"),
+    e("m.S.Ch.f.formula = 'lambda: y + 20'", "formula-set"),
+    e("del m.S.Ch.f", "cells-delete"),
+    e(cells("m.S.Ch", "f", "y + 30"), "cells-create"),
+    e(cells("m.T", "f", "y + 40"), "cells-create", "other-space"),
+    e("m.S.Ch.f.rename('f2')", "cells-rename"),
+    e("m.S.rename('S2')", "space-rename", "parent-space"),
+    sref("m.S", "z", 5, "in-parent-space"),
+]))
 
 # ------------------------------------------------------------------------------------------------------------
 # W3  a model-level reference g: by name from two spaces, as _model.g, through a space (_model.S.g), shadowed
 #     and unshadowed in the space, read in an ItemSpace.
-WORLDS.append(World(
-    "model-ref",
-    build=[
-        "m.g = 1",
-        "S = m.new_space('S')",
-        "T = m.new_space('T')",
-        "P = m.new_space('P', formula=lambda i: None)",
-        cells("S", "b", "g"),
-        cells("S", "cb", "b() + 100"),
-        cells("S", "ub", "g * 2", cached=False),
-        cells("S", "cub", "ub() + 200", style="def"),
-        cells("T", "tg", "_model.g + 300"),
-        cells("T", "tsg", "_model.S.g + 400"),
-        cells("T", "tb", "g + 500"),
-        cells("T", "utsg", "_model.S.g + 600", cached=False),
-        cells("T", "cutsg", "utsg() + 1"),
-        cells("P", "pg", "g + i * 1000"),
-    ],
-    queries=[
-        q("m.S.b()", "name-model-ref"),
-        q("m.S.cb()", "name-model-ref", "via:cached-callee"),
-        q("m.S.cub()", "name-model-ref", "via:uncached-callee"),
-        q("m.T.tg()", "attr-model-ref"),
-        q("m.T.tsg()", "attr-space-model-ref"),
-        q("m.T.tb()", "name-model-ref", "other-space"),
-        q("m.T.cutsg()", "attr-space-model-ref", "via:uncached-callee"),
-        q("m.P[1].pg()", "name-model-ref", "in-itemspace"),
-    ],
-    edits=[
-        mref("g", 7),
-        mref("g", 9),
-        mdel("g"),
-        sref("m.S", "g", 20),
-        sref("m.S", "g", 30),
-        sdel("m.S", "g"),
-        sref("m.T", "g", 40),
-        sdel("m.T", "g"),
-        sref("m.P", "g", 50),
-        sdel("m.P", "g"),
-        mref("h", 60, "unrelated-name"),
-        e("m.new_space('g')", "space-create", "takes-name-of-deleted-model-ref"),
-        e("del m.S", "space-delete"),
-    ],
-))
+b = B("model-ref")
+b.add("m.g = 1", "S = m.new_space('S')", "T = m.new_space('T')", "P = m.new_space('P', formula=lambda i: None)")
+b.leaf("S", "m.S", "b", "g", "name-model-ref", wrap="cuxy")
+b.leaf("T", "m.T", "tg", "_model.g + 300", "attr-model-ref", wrap="cu")
+b.leaf("T", "m.T", "tsg", "_model.S.g + 400", "attr-space-model-ref", wrap="cu", style="def")
+b.leaf("T", "m.T", "tb", "g + 500", "name-model-ref", "other-space", wrap="")
+b.add(cells("P", "pg", "g + i * 1000"))
+b.q("m.P[1].pg()", "name-model-ref", "in-itemspace")
+WORLDS.append(b.world([
+    mref("g", 7),
+    mref("g", 9),
+    mdel("g"),
+    sref("m.S", "g", 20),
+    sref("m.S", "g", 30),
+    sdel("m.S", "g"),
+    sref("m.T", "g", 40),
+    sdel("m.T", "g"),
+    sref("m.P", "g", 50),
+    sdel("m.P", "g"),
+    mref("h", 60, "unrelated-name"),
+    e("m.new_space('g')", "space-create", "takes-name-of-deleted-model-ref"),
+    e("del m.S", "space-delete"),
+]))
 
 # ------------------------------------------------------------------------------------------------------------
 # W4  inheritance: two bases defining the same reference and cells, a sub space and a sub-sub space; derived
 #     members read by name inside the sub and by attribute path from outside; overriding, deleting, add/remove
 #     bases, deleting a base space.
-WORLDS.append(World(
-    "inheritance",
-    build=[
-        "B1 = m.new_space('B1')",
-        "B1.r = 1",
-        "B2 = m.new_space('B2')",
-        "B2.r = 2",
-        cells("B1", "foo", "r + 10"),
-        cells("B2", "foo", "r + 20"),
-        cells("B2", "bar", "foo() + 100", style="def"),
-        "Sub = m.new_space('Sub', bases=[B1, B2])",
-        "Sub2 = m.new_space('Sub2', bases=Sub)",
-        "T = m.new_space('T')",
-        cells("T", "t", "_model.Sub.r + 1000"),
-        cells("T", "t2", "_model.Sub2.r + 2000"),
-        cells("T", "tf", "_model.Sub.foo() + 3000"),
-        cells("T", "ut", "_model.Sub.r + 4000", cached=False),
-        cells("T", "cut", "ut() + 1"),
-    ],
-    queries=[
-        q("m.B1.foo()", "name-space-ref", "in-base"),
-        q("m.Sub.foo()", "name-derived-ref", "derived-cells"),
-        q("m.Sub.bar()", "name-derived-ref", "derived-cells", "via:cached-callee", unc=("Sub.foo",)),
-        q("m.Sub2.bar()", "name-derived-ref", "derived-cells", "via:cached-callee", "second-level-sub",
-          unc=("Sub2.foo",)),
-        q("m.T.t()", "attr-derived-ref"),
-        q("m.T.t2()", "attr-derived-ref", "second-level-sub"),
-        q("m.T.tf()", "attr-derived-cells", "caller-in-other-space", unc=("Sub.foo",)),
-        q("m.T.cut()", "attr-derived-ref", "via:uncached-callee"),
-    ],
-    edits=[
-        sref("m.B1", "r", 3, "in-base"),
-        sref("m.B2", "r", 4, "in-base"),
-        sdel("m.B1", "r", "in-base"),
-        sref("m.Sub", "r", 5, "in-sub"),
-        sdel("m.Sub", "r", "in-sub"),
-        e("m.B1.foo.formula = 'lambda: r + 30'", "formula-set", "in-base"),
-        e("m.Sub.foo.formula = 'lambda: r + 40'", "formula-set", "in-sub", "overrides-derived-cells"),
-        e("del m.B1.foo", "cells-delete", "in-base"),
-        e("del m.Sub.foo", "cells-delete", "in-sub"),
-        e(cells("m.B1", "bar", "foo() + 200"), "cells-create", "in-base"),
-        e("m.Sub.remove_bases(m.B1)", "remove-bases"),
-        e("m.Sub.add_bases(m.B1)", "add-bases"),
-        e("m.Sub.remove_bases(m.B2)", "remove-bases"),
-        e("del m.B1", "space-delete", "base-space"),
-        e("m.B1.foo.is_cached = False", "cached-flag", "in-base"),
-        e("m.B2.bar.rename('bar2')", "cells-rename", "in-base"),
-    ],
-))
+b = B("inheritance")
+b.add("B1 = m.new_space('B1')", "B1.r = 1", "B2 = m.new_space('B2')", "B2.r = 2",
+      cells("B1", "foo", "r + 10"), cells("B2", "foo", "r + 20"), cells("B2", "bar", "foo() + 100", style="def"),
+      "Sub = m.new_space('Sub', bases=[B1, B2])", "Sub2 = m.new_space('Sub2', bases=Sub)", "T = m.new_space('T')")
+b.q("m.B1.foo()", "name-space-ref", "in-base")
+b.q("m.Sub.foo()", "name-derived-ref", "derived-cells")
+b.q("m.Sub.bar()", "name-derived-ref", "derived-cells", "via:cached-callee", unc=("Sub.foo",))
+b.q("m.Sub2.bar()", "name-derived-ref", "derived-cells", "via:cached-callee", "second-level-sub", unc=("Sub2.foo",))
+b.leaf("T", "m.T", "t", "_model.Sub.r + 1000", "attr-derived-ref", wrap="cu")
+b.leaf("T", "m.T", "t2", "_model.Sub2.r + 2000", "attr-derived-ref", "second-level-sub", wrap="")
+b.add(cells("T", "tf", "_model.Sub.foo() + 3000"))
+b.q("m.T.tf()", "attr-derived-cells", "caller-in-other-space", unc=("Sub.foo",))
+WORLDS.append(b.world([
+    sref("m.B1", "r", 3, "in-base"),
+    sref("m.B2", "r", 4, "in-base"),
+    sdel("m.B1", "r", "in-base"),
+    sref("m.Sub", "r", 5, "in-sub"),
+    sdel("m.Sub", "r", "in-sub"),
+    e("m.B1.foo.formula = 'lambda: r + 30'", "formula-set", "in-base"),
+    e("m.Sub.foo.formula = 'lambda: r + 40'", "formula-set", "in-sub", "overrides-derived-cells"),
+    e("del m.B1.foo", "cells-delete", "in-base"),
+    e("del m.Sub.foo", "cells-delete", "in-sub"),
+    e(cells("m.B1", "bar", "foo() + 200"), "cells-create", "in-base"),
+    e("m.Sub.remove_bases(m.B1)", "remove-bases"),
+    e("m.Sub.add_bases(m.B1)", "add-bases"),
+    e("m.Sub.remove_bases(m.B2)", "remove-bases"),
+    e("del m.B1", "space-delete", "base-space"),
+    e("m.B1.foo.is_cached = False", "cached-flag", "in-base"),
+    e("m.B2.bar.rename('bar2')", "cells-rename", "in-base"),
+]))
 
 # ------------------------------------------------------------------------------------------------------------
 # W5  cells with arguments: formula changes, deletion / re-creation / renaming, cached flag, values, reached by
 #     name, through cached and uncached callers, by attribute path, through a reference bound to the cells
 #     object, and as derived cells of a sub space.
-WORLDS.append(World(
-    "cells-life",
-    build=[
-        "S = m.new_space('S')",
-        "S.x = 1",
-        cells("S", "f", "x + i", style="def", params="i"),
-        cells("S", "g", "f(1) + f(2) * 10"),
-        cells("S", "h", "g() + 100", style="def"),
-        cells("S", "u", "f(1) * 3", cached=False),
-        cells("S", "cu", "u() + 200"),
-        "T = m.new_space('T')",
-        "T.fr = S.f",
-        cells("T", "tf", "_model.S.f(1) + 1000"),
-        cells("T", "tr", "fr(2) + 2000"),
-        "Sub = m.new_space('Sub', bases=S)",
-    ],
-    queries=[
-        q("m.S.f(1)", "own-value"),
-        q("m.S.g()", "call-by-name", unc=("S.f",)),
-        q("m.S.h()", "call-by-name", "via:cached-callee", unc=("S.f",)),
-        q("m.S.cu()", "call-by-name", unc=("S.f", "S.u")),
-        q("m.T.tf()", "call-by-attr", "caller-in-other-space", unc=("S.f",)),
-        q("m.T.tr()", "call-by-ref-to-cells", "caller-in-other-space", unc=("S.f",)),
-        q("m.Sub.g()", "call-by-name", "derived-cells", unc=("Sub.f",)),
-        q("m.Sub.f(2)", "own-value", "derived-cells"),
-        q("m.S.f9(1)", "own-value", "renamed"),
-    ],
-    edits=[
-        e("m.S.f.formula = %r" % fsrc("f", "x + i * 2", "def", "i"), "formula-set"),
-        e("m.S.f.formula = 'lambda i: x + i * 3'", "formula-set"),
-        e("del m.S.f", "cells-delete"),
-        e(cells("m.S", "f", "x + i * 4", params="i"), "cells-create"),
-        e("m.S.f.rename('f9')", "cells-rename"),
-        e("m.S.f9.rename('f')", "cells-rename"),
-        e("m.S.g.formula = 'lambda: f(1) + f(3) * 10'", "formula-set", "caller"),
-        e("m.S.f.is_cached = False", "cached-flag"),
-        e("m.S.f.is_cached = True", "cached-flag"),
-        e("m.S.u.is_cached = True", "cached-flag"),
-        e("m.S.f[1] = 50", "value-assign"),
-        e("m.S.f.clear_all()", "value-clear"),
-        e("m.Sub.f.formula = 'lambda i: x + i * 5'", "formula-set", "in-sub", "overrides-derived-cells"),
-        e("del m.S.f.formula", "formula-delete"),
-        e("m.S.f.doc = 'doc'", "formula-set", "doc"),
-        e("m.S.sort_cells()", "cells-sort"),
-    ],
-))
+b = B("cells-life")
+b.add("S = m.new_space('S')", "S.x = 1", cells("S", "f", "x + i", style="def", params="i"),
+      cells("S", "g", "f(1) + f(2) * 10"), cells("S", "h", "g() + 100", style="def"),
+      cells("S", "u", "f(1) * 3", cached=False), cells("S", "cu", "u() + 200"),
+      "T = m.new_space('T')", "T.fr = S.f", cells("T", "tf", "_model.S.f(1) + 1000"), cells("T", "tr", "fr(2) + 2000"),
+      "Sub = m.new_space('Sub', bases=S)")
+b.q("m.S.f(1)", "own-value")
+b.q("m.S.g()", "call-by-name", unc=("S.f",))
+b.q("m.S.h()", "call-by-name", "via:cached-callee", unc=("S.f",))
+b.q("m.S.cu()", "call-by-name", unc=("S.f", "S.u"))
+b.q("m.T.tf()", "call-by-attr", "caller-in-other-space", unc=("S.f",))
+b.q("m.T.tr()", "call-by-ref-to-cells", "caller-in-other-space", unc=("S.f",))
+b.q("m.Sub.g()", "call-by-name", "derived-cells", unc=("Sub.f",))
+b.q("m.Sub.f(2)", "own-value", "derived-cells")
+b.q("m.S.f9(1)", "own-value", "renamed")
+WORLDS.append(b.world([
+    e("m.S.f.formula = %r" % fsrc("f", "x + i * 2", "def", "i"), "formula-set"),
+    e("m.S.f.formula = 'lambda i: x + i * 3'", "formula-set"),
+    e("del m.S.f", "cells-delete"),
+    e("del m.T.fr", "space-ref-delete", "ref-to-cells"),
+    e(cells("m.S", "f", "x + i * 4", params="i"), "cells-create"),
+    e("m.S.f.rename('f9')", "cells-rename"),
+    e("m.S.f9.rename('f')", "cells-rename"),
+    e("m.S.g.formula = 'lambda: f(1) + f(3) * 10'", "formula-set", "caller"),
+    e("m.S.f.is_cached = False", "cached-flag"),
+    e("m.S.f.is_cached = True", "cached-flag"),
+    e("m.S.u.is_cached = True", "cached-flag"),
+    e("m.S.f[1] = 50", "value-assign"),
+    e("m.S.f.clear_all()", "value-clear"),
+    e("m.Sub.f.formula = 'lambda i: x + i * 5'", "formula-set", "in-sub", "overrides-derived-cells"),
+    e("del m.S.f.formula", "formula-delete"),
+    e("m.S.f.doc = 'doc'", "formula-set", "doc"),
+    e("m.S.sort_cells()", "cells-sort"),
+]))
 
 # ------------------------------------------------------------------------------------------------------------
 # W6  ItemSpaces: cells of an ItemSpace read references of the parametric space by name, the dynamic copy of a
 #     child space, a parameter formula that reads a reference and calls cells; callers outside reach into the
 #     ItemSpace by attribute path.
-WORLDS.append(World(
-    "itemspace",
-    build=[
-        "m.g = 1",
-        "P = m.new_space('P', formula=lambda i: None)",
-        "P.x = 2",
-        cells("P", "c", "x + i * 10 + g * 100"),
-        cells("P", "d", "c() + 1000", style="def"),
-        "PC = P.new_space('PC')",
-        "PC.y = 3",
-        cells("PC", "ee", "y + 5"),
-        cells("P", "k", "PC.y + 7"),
-        "R = m.new_space('R')",
-        "R.z = 4",
-        cells("R", "base", "z * 2"),
-        "R.formula = lambda j: {'refs': {'kk': base() + j}}",
-        cells("R", "v", "kk + 1"),
-        "T = m.new_space('T')",
-        cells("T", "t", "_model.P[1].c() + 7000"),
-        cells("T", "tv", "_model.R[1].v() + 8000"),
-    ],
-    queries=[
-        q("m.P[1].c()", "name-space-ref", "in-itemspace"),
-        q("m.P[1].d()", "name-space-ref", "in-itemspace", "via:cached-callee"),
-        q("m.P[2].c()", "name-space-ref", "in-itemspace", "second-item"),
-        q("m.P[1].PC.ee()", "name-space-ref", "in-dynamic-child"),
-        q("m.P[1].k()", "attr-child-ref", "in-itemspace"),
-        q("m.R[1].v()", "name-itemspace-ref", "param-formula-calls-cells"),
-        q("m.R.base()", "name-space-ref"),
-        q("m.T.t()", "attr-into-itemspace"),
-        q("m.T.tv()", "attr-into-itemspace", "param-formula-calls-cells"),
-    ],
-    edits=[
-        sref("m.P", "x", 5),
-        sdel("m.P", "x"),
-        mref("g", 6),
-        mref("x", 8, "same-name-as-space-ref"),
-        sref("m.P.PC", "y", 9, "in-child-space"),
-        sref("m.R", "z", 11),
-        e("m.R.base.formula = 'lambda: z * 3'", "formula-set", "called-by-param-formula"),
-        e("m.R.base = 70", "value-assign", "called-by-param-formula"),
-        e("m.R.base.clear_all()", "value-clear", "called-by-param-formula"),
-        e("m.R.formula = lambda j: {'refs': {'kk': base() + j * 2}}", "space-formula-set"),
-        e("m.P.formula = lambda i: {'refs': {'x': 50}}", "space-formula-set"),
-        e("m.P.c.formula = 'lambda: x + i * 20 + g * 100'", "formula-set"),
-        e("try:\n    del m.P[1]\nexcept KeyError:\n    pass", "itemspace-delete"),
-        e("m.P.clear_items()", "itemspace-delete"),
-        e("m.P.clear_all()", "value-clear", "space-wide"),
-        e(cells("m.P", "n", "x"), "cells-create"),
-        e("del m.P.PC", "space-delete", "child-of-parametric-space"),
-    ],
-))
+b = B("itemspace")
+b.add("m.g = 1", "P = m.new_space('P', formula=lambda i: None)", "P.x = 2",
+      cells("P", "c", "x + i * 10 + g * 100"), cells("P", "d", "c() + 1000", style="def"),
+      "PC = P.new_space('PC')", "PC.y = 3", cells("PC", "ee", "y + 5"), cells("P", "k", "PC.y + 7"),
+      cells("P", "ku", "PC.y + 8", cached=False), cells("P", "kuc", "ku() + 1"),
+      "R = m.new_space('R')", "R.z = 4", cells("R", "base", "z * 2"),
+      "R.formula = lambda j: {'refs': {'kk': base() + j}}", cells("R", "v", "kk + 1"),
+      "T = m.new_space('T')", cells("T", "t", "_model.P[1].c() + 7000"), cells("T", "tv", "_model.R[1].v() + 8000"))
+b.q("m.P[1].c()", "name-space-ref", "in-itemspace")
+b.q("m.P[1].d()", "name-space-ref", "in-itemspace", "via:cached-callee")
+b.q("m.P[2].c()", "name-space-ref", "in-itemspace", "second-item")
+b.q("m.P[1].PC.ee()", "name-space-ref", "in-dynamic-child")
+b.q("m.P[1].k()", "attr-child-ref", "in-itemspace")
+b.q("m.P[1].kuc()", "attr-child-ref", "in-itemspace", "via:uncached-callee")
+b.q("m.R[1].v()", "name-itemspace-ref", "param-formula-calls-cells")
+b.q("m.R.base()", "name-space-ref")
+b.q("m.T.t()", "attr-into-itemspace", "caller-in-other-space")
+b.q("m.T.tv()", "attr-into-itemspace", "param-formula-calls-cells", "caller-in-other-space")
+b.q("m.P[1].n()", "created-cells", "in-itemspace")
+WORLDS.append(b.world([
+    sref("m.P", "x", 5),
+    sdel("m.P", "x"),
+    mref("g", 6),
+    mref("x", 8, "same-name-as-space-ref"),
+    sref("m.P.PC", "y", 9, "in-child-space"),
+    sref("m.R", "z", 11),
+    e("m.R.base.formula = 'lambda: z * 3'", "formula-set", "called-by-param-formula"),
+    e("m.R.base = 70", "value-assign", "called-by-param-formula"),
+    e("m.R.base.clear_all()", "value-clear", "called-by-param-formula"),
+    e("m.R.formula = lambda j: {'refs': {'kk': base() + j * 2}}", "space-formula-set"),
+    e("m.P.formula = lambda i: {'refs': {'x': 50}}", "space-formula-set"),
+    e("m.P.formula = lambda i, j=0: None", "space-formula-set", "parameters"),
+    e("m.P.c.formula = 'lambda: x + i * 20 + g * 100'", "formula-set"),
+    e("try:\n    del m.P[1]\nexcept KeyError:\n    pass", "itemspace-delete"),
+    e("m.P.clear_items()", "itemspace-delete"),
+    e("m.P.clear_all()", "value-clear", "space-wide"),
+    e(cells("m.P", "n", "x"), "cells-create"),
+    e("m.P.c.rename('c9')", "cells-rename"),
+    e("del m.P.PC", "space-delete", "child-of-parametric-space"),
+]))
 
 # ------------------------------------------------------------------------------------------------------------
 # W7  values: assigning, overwriting, clearing elements of a recursive cells and its callers, space- and
 #     model-wide clearing, together with a reference change.
-WORLDS.append(World(
-    "values",
-    build=[
-        "S = m.new_space('S')",
-        "S.x = 1",
-        cells("S", "f", "f(n - 1) + x if n > 0 else 10", style="def", params="n"),
-        cells("S", "g", "f(n) * 2", params="n"),
-        cells("S", "h", "g(2) + f(1) + 1000"),
-        cells("S", "uf", "f(n) + 5", params="n", cached=False),
-        cells("S", "k", "uf(2) + 3000"),
-        "T = m.new_space('T')",
-        cells("T", "t", "_model.S.f(2) + 7000"),
-    ],
-    queries=[
-        q("m.S.f(0)", "own-value"),
-        q("m.S.f(2)", "call-by-name", "recursive"),
-        q("m.S.f(3)", "call-by-name", "recursive"),
-        q("m.S.g(2)", "call-by-name"),
-        q("m.S.h()", "call-by-name", "via:cached-callee"),
-        q("m.S.k()", "call-by-name", "via:uncached-callee"),
-        q("m.T.t()", "call-by-attr"),
-    ],
-    edits=[
-        e("m.S.f[0] = 100", "value-assign"),
-        e("m.S.f[1] = 200", "value-assign"),
-        e("m.S.f[1] = 300", "value-assign"),
-        e("m.S.f.clear_at(1)", "value-clear"),
-        e("m.S.f.clear_at(0)", "value-clear"),
-        e("m.S.f.clear()", "value-clear", "computed-only"),
-        e("m.S.f.clear_all()", "value-clear"),
-        e("m.S.g[2] = 7", "value-assign", "caller"),
-        e("m.S.h = 9", "value-assign", "scalar"),
-        e("del m.S.h.value", "value-clear", "scalar"),
-        e("m.S.clear_all()", "value-clear", "space-wide"),
-        e("m.S.clear_cells()", "value-clear", "space-wide", "computed-only"),
-        e("m.clear_all()", "value-clear", "model-wide"),
-        sref("m.S", "x", 2),
-    ],
-))
+b = B("values")
+b.add("S = m.new_space('S')", "S.x = 1",
+      cells("S", "f", "f(n - 1) + x if n > 0 else 10", style="def", params="n"),
+      cells("S", "g", "f(n) * 2", params="n"), cells("S", "h", "g(2) + f(1) + 1000"),
+      cells("S", "uf", "f(n) + 5", params="n", cached=False), cells("S", "k", "uf(2) + 3000"),
+      "T = m.new_space('T')", cells("T", "t", "_model.S.f(2) + 7000"), cells("T", "tu", "_model.S.uf(1) + 8000"))
+b.q("m.S.f(0)", "own-value")
+b.q("m.S.f(2)", "call-by-name", "recursive")
+b.q("m.S.f(3)", "call-by-name", "recursive")
+b.q("m.S.g(2)", "call-by-name")
+b.q("m.S.h()", "call-by-name", "via:cached-callee")
+b.q("m.S.k()", "call-by-name", "via:uncached-callee")
+b.q("m.T.t()", "call-by-attr", "caller-in-other-space")
+b.q("m.T.tu()", "call-by-attr", "caller-in-other-space", "via:uncached-callee")
+WORLDS.append(b.world([
+    e("m.S.f[0] = 100", "value-assign"),
+    e("m.S.f[1] = 200", "value-assign"),
+    e("m.S.f[1] = 300", "value-assign"),
+    e("m.S.f.clear_at(1)", "value-clear"),
+    e("m.S.f.clear_at(0)", "value-clear"),
+    e("m.S.f.clear()", "value-clear", "computed-only"),
+    e("m.S.f.clear_all()", "value-clear"),
+    e("m.S.g[2] = 7", "value-assign", "caller"),
+    e("m.S.h = 9", "value-assign", "scalar"),
+    e("del m.S.h.value", "value-clear", "scalar"),
+    e("m.S.clear_all()", "value-clear", "space-wide"),
+    e("m.S.clear_cells()", "value-clear", "space-wide", "computed-only"),
+    e("m.clear_all()", "value-clear", "model-wide"),
+    sref("m.S", "x", 2),
+]))
 
 # ------------------------------------------------------------------------------------------------------------
 # W8  references bound to objects: a cells object, a space object; re-targeting, deleting and renaming the
 #     target; a reference of a base to its own cells (relative in the sub space).
-WORLDS.append(World(
-    "object-refs",
-    build=[
-        "A = m.new_space('A')",
-        "A.v = 1",
-        cells("A", "foo", "v + 10"),
-        "A2 = m.new_space('A2')",
-        "A2.v = 2",
-        cells("A2", "foo", "v + 20"),
-        "S = m.new_space('S')",
-        "S.r = A.foo",
-        "S.sp = A",
-        cells("S", "c", "r() + 100"),
-        cells("S", "d", "sp.foo() + 200", style="def"),
-        cells("S", "ee", "sp.v + 300"),
-        "B = m.new_space('B')",
-        "B.w = 5",
-        cells("B", "own", "w + 40"),
-        "B.rf = B.own",
-        cells("B", "qq", "rf() + 400"),
-        "Sub = m.new_space('Sub', bases=B)",
-        "T = m.new_space('T')",
-        cells("T", "t", "_model.S.r() + 500"),
-    ],
-    queries=[
-        q("m.S.c()", "call-by-ref-to-cells"),
-        q("m.S.d()", "attr-refd-space-cells"),
-        q("m.S.ee()", "attr-refd-space-ref"),
-        q("m.B.qq()", "call-by-ref-to-cells", "in-base"),
-        q("m.Sub.qq()", "call-by-ref-to-cells", "derived-relative-ref"),
-        q("m.T.t()", "attr-space-ref-to-cells"),
-    ],
-    edits=[
-        sref("m.S", "r", "m.A2.foo", "ref-to-cells-retarget"),
-        sref("m.S", "sp", "m.A2", "ref-to-space-retarget"),
-        sref("m.A", "v", 6, "in-target-space"),
-        e("m.A.foo.formula = 'lambda: v + 30'", "formula-set", "in-target-space"),
-        e("del m.A.foo", "cells-delete", "ref-target"),
-        e("m.A.foo.rename('foo2')", "cells-rename", "ref-target"),
-        e("del m.A", "space-delete", "ref-target"),
-        e("m.A.rename('A9')", "space-rename", "ref-target"),
-        sref("m.B", "w", 7, "in-base"),
-        sref("m.Sub", "w", 8, "in-sub"),
-        e("m.B.own.formula = 'lambda: w + 50'", "formula-set", "in-base"),
-        e("m.Sub.own.formula = 'lambda: w + 60'", "formula-set", "in-sub", "overrides-derived-cells"),
-        sref("m.B", "rf", "m.A2.foo", "ref-to-cells-retarget", "in-base"),
-        sref("m.Sub", "rf", "m.A2.foo", "ref-to-cells-retarget", "in-sub"),
-        sref("m.S", "r", "m.A.foo", "ref-to-cells-retarget", how="absolute"),
-    ],
-))
+b = B("object-refs")
+b.add("A = m.new_space('A')", "A.v = 1", cells("A", "foo", "v + 10"),
+      "A2 = m.new_space('A2')", "A2.v = 2", cells("A2", "foo", "v + 20"),
+      "S = m.new_space('S')", "S.r = A.foo", "S.sp = A",
+      "B = m.new_space('B')", "B.w = 5", cells("B", "own", "w + 40"), "B.rf = B.own", cells("B", "qq", "rf() + 400"),
+      "Sub = m.new_space('Sub', bases=B)")
+b.leaf("S", "m.S", "c", "r() + 100", "call-by-ref-to-cells", wrap="cux")
+b.leaf("S", "m.S", "d", "sp.foo() + 200", "attr-refd-space-cells", wrap="c", style="def")
+b.leaf("S", "m.S", "ee", "sp.v + 300", "attr-refd-space-ref", wrap="cu")
+b.q("m.B.qq()", "call-by-ref-to-cells", "in-base")
+b.q("m.Sub.qq()", "call-by-ref-to-cells", "derived-relative-ref")
+b.leaf("Z", "m.Z", "t", "_model.S.r() + 500", "attr-space-ref-to-cells", wrap="c")
+WORLDS.append(b.world([
+    sref("m.S", "r", "m.A2.foo", "ref-to-cells-retarget"),
+    sref("m.S", "sp", "m.A2", "ref-to-space-retarget"),
+    sdel("m.S", "r", "ref-to-cells"),
+    sdel("m.S", "sp", "ref-to-space"),
+    sref("m.A", "v", 6, "in-target-space"),
+    e("m.A.foo.formula = 'lambda: v + 30'", "formula-set", "in-target-space"),
+    e("del m.A.foo", "cells-delete", "ref-target"),
+    e("m.A.foo.rename('foo2')", "cells-rename", "ref-target"),
+    e("del m.A", "space-delete", "ref-target"),
+    e("m.A.rename('A9')", "space-rename", "ref-target"),
+    sref("m.B", "w", 7, "in-base"),
+    sref("m.Sub", "w", 8, "in-sub"),
+    e("m.B.own.formula = 'lambda: w + 50'", "formula-set", "in-base"),
+    e("m.Sub.own.formula = 'lambda: w + 60'", "formula-set", "in-sub", "overrides-derived-cells"),
+    sref("m.B", "rf", "m.A2.foo", "ref-to-cells-retarget", "in-base"),
+    sref("m.Sub", "rf", "m.A2.foo", "ref-to-cells-retarget", "in-sub"),
+    sref("m.S", "r", "m.A.foo", "ref-to-cells-retarget", how="absolute"),
+]))
 
 # ------------------------------------------------------------------------------------------------------------
 # W9  one name, successively a model-level reference, a reference / a cells / a child space of S (each shadows
 #     the model-level one): read by name in S and by attribute path from T.  `val` calls callables.
-WORLDS.append(World(
-    "name-kinds",
-    build=[
-        "m.val = lambda v: v() if callable(v) else v",
-        "m.n = 5",
-        "S = m.new_space('S')",
-        "T = m.new_space('T')",
-        cells("S", "p", "val(n) + 100"),
-        cells("S", "cp", "p() + 1000", style="def"),
-        cells("S", "up", "val(n) + 200", cached=False),
-        cells("S", "cup", "up() + 2000"),
-        cells("T", "t", "val(_model.S.n) + 300"),
-        cells("T", "tp", "_model.S.p() + 400"),
-    ],
-    queries=[
-        q("m.S.p()", "name-any-kind"),
-        q("m.S.cp()", "name-any-kind", "via:cached-callee"),
-        q("m.S.cup()", "name-any-kind", "via:uncached-callee"),
-        q("m.T.t()", "attr-any-kind"),
-        q("m.T.tp()", "name-any-kind", "via:cached-callee", "via:attr-cells"),
-    ],
-    edits=[
-        mref("n", 6),
-        mdel("n"),
-        sref("m.S", "n", 7),
-        sref("m.S", "n", 8),
-        e(cells("m.S", "n", "9"), "cells-create", "may-shadow-model-ref"),
-        e("m.S.n.formula = 'lambda: 10'", "formula-set"),
-        sref("m.S", "n", 11, "or-scalar-cells-value"),
-        e("m.S.new_space('n')", "space-create", "may-shadow-model-ref"),
-        e("del m.S.n", "delete-by-name-any-kind"),
-        e("m.S.n.rename('n2')", "rename-any-kind"),
-        e("m.S.n2.rename('n')", "rename-any-kind"),
-        sref("m.T", "n", 12, "other-space"),
-    ],
-))
+b = B("name-kinds")
+b.add("m.val = lambda v: v() if callable(v) else v", "m.n = 5", "S = m.new_space('S')", "T = m.new_space('T')")
+b.leaf("S", "m.S", "p", "val(n) + 100", "name-any-kind", wrap="cuxy")
+b.leaf("T", "m.T", "t", "val(_model.S.n) + 300", "attr-any-kind", wrap="cu")
+WORLDS.append(b.world([
+    mref("n", 6),
+    mdel("n"),
+    sref("m.S", "n", 7),
+    sref("m.S", "n", 8),
+    e(cells("m.S", "n", "9"), "cells-create", "may-shadow-model-ref"),
+    e("m.S.n.formula = 'lambda: 10'", "formula-set"),
+    sref("m.S", "n", 11, "or-scalar-cells-value"),
+    e("m.S.new_space('n')", "space-create", "may-shadow-model-ref"),
+    e("del m.S.n", "delete-by-name-any-kind"),
+    e("m.S.n.rename('n2')", "rename-any-kind"),
+    e("m.S.n2.rename('n')", "rename-any-kind"),
+    sref("m.T", "n", 12, "other-space"),
+]))
 
 # ------------------------------------------------------------------------------------------------------------
 # W10  parametric spaces and inheritance: a parametric space derived from two bases (ItemSpaces serve derived
 #      cells and references), an ItemSpace whose base is another space chosen by the parameter formula.
-WORLDS.append(World(
-    "param-inherit",
-    build=[
-        "B1 = m.new_space('B1')",
-        "B1.r = 1",
-        cells("B1", "foo", "r + 10"),
-        "B2 = m.new_space('B2')",
-        "B2.r = 2",
-        cells("B2", "foo", "r + 20"),
-        "P = m.new_space('P', bases=[B1, B2], formula=lambda i: None)",
-        cells("P", "c", "foo() * 10 + i", style="def"),
-        "X = m.new_space('X')",
-        "X.w = 3",
-        cells("X", "h", "w + kk * 100"),
-        "X.kk = 0",
-        "D = m.new_space('D', formula=lambda k: {'base': _model.X, 'refs': {'kk': k}})",
-        "T = m.new_space('T')",
-        cells("T", "t", "_model.P[1].foo() + 5000"),
-        cells("T", "td", "_model.D[2].h() + 6000"),
-    ],
-    queries=[
-        q("m.P.foo()", "name-derived-ref", "derived-cells"),
-        q("m.P[1].foo()", "name-derived-ref", "derived-cells", "in-itemspace"),
-        q("m.P[1].c()", "name-derived-ref", "derived-cells", "in-itemspace", "via:cached-callee", unc=("P.foo",)),
-        q("m.P[2].c()", "name-derived-ref", "derived-cells", "in-itemspace", "via:cached-callee", "second-item",
-          unc=("P.foo",)),
-        q("m.D[2].h()", "name-space-ref", "in-itemspace", "itemspace-of-other-base"),
-        q("m.X.h()", "name-space-ref"),
-        q("m.T.t()", "attr-into-itemspace", "derived-cells", "caller-in-other-space", unc=("P.foo",)),
-        q("m.T.td()", "attr-into-itemspace", "itemspace-of-other-base"),
-    ],
-    edits=[
-        sref("m.B1", "r", 3, "in-base"),
-        sdel("m.B1", "r", "in-base"),
-        sref("m.P", "r", 4, "in-sub"),
-        e("m.B1.foo.formula = 'lambda: r + 30'", "formula-set", "in-base"),
-        e("m.P.foo.formula = 'lambda: r + 40'", "formula-set", "in-sub", "overrides-derived-cells"),
-        e("del m.B1.foo", "cells-delete", "in-base"),
-        e("m.P.remove_bases(m.B1)", "remove-bases"),
-        e("m.P.add_bases(m.B1)", "add-bases"),
-        e("del m.B1", "space-delete", "base-space"),
-        e("m.B1.foo.is_cached = False", "cached-flag", "in-base"),
-        sref("m.X", "w", 5, "in-itemspace-base"),
-        e("m.X.h.formula = 'lambda: w + kk * 200'", "formula-set", "in-itemspace-base"),
-        e("m.X.h = 77", "value-assign", "in-itemspace-base"),
-        e("m.D.formula = lambda k: {'base': _model.X, 'refs': {'kk': k + 1}}", "space-formula-set"),
-        e("m.D.formula = lambda k: {'base': _model.B1, 'refs': {'h': (lambda: 9)}}", "space-formula-set", "other-base"),
-        e("m.P.formula = lambda i, j=0: None", "space-formula-set", "parameters"),
-    ],
-))
+b = B("param-inherit")
+b.add("B1 = m.new_space('B1')", "B1.r = 1", cells("B1", "foo", "r + 10"),
+      "B2 = m.new_space('B2')", "B2.r = 2", cells("B2", "foo", "r + 20"),
+      "P = m.new_space('P', bases=[B1, B2], formula=lambda i: None)", cells("P", "c", "foo() * 10 + i", style="def"),
+      "X = m.new_space('X')", "X.w = 3", cells("X", "h", "w + kk * 100"), "X.kk = 0",
+      "D = m.new_space('D', formula=lambda k: {'base': _model.X, 'refs': {'kk': k}})",
+      "T = m.new_space('T')", cells("T", "t", "_model.P[1].foo() + 5000"), cells("T", "td", "_model.D[2].h() + 6000"))
+b.q("m.P.foo()", "name-derived-ref", "derived-cells")
+b.q("m.P[1].foo()", "name-derived-ref", "derived-cells", "in-itemspace")
+b.q("m.P[1].c()", "name-derived-ref", "derived-cells", "in-itemspace", "via:cached-callee", unc=("P.foo",))
+b.q("m.P[2].c()", "name-derived-ref", "derived-cells", "in-itemspace", "via:cached-callee", "second-item",
+    unc=("P.foo",))
+b.q("m.D[2].h()", "name-space-ref", "in-itemspace", "itemspace-of-other-base")
+b.q("m.X.h()", "name-space-ref")
+b.q("m.T.t()", "attr-into-itemspace", "derived-cells", "caller-in-other-space", unc=("P.foo",))
+b.q("m.T.td()", "attr-into-itemspace", "itemspace-of-other-base", "caller-in-other-space")
+b.q("m.D[2].nn()", "created-cells", "in-itemspace", "itemspace-of-other-base")
+WORLDS.append(b.world([
+    sref("m.B1", "r", 3, "in-base"),
+    sdel("m.B1", "r", "in-base"),
+    sref("m.P", "r", 4, "in-sub"),
+    e("m.B1.foo.formula = 'lambda: r + 30'", "formula-set", "in-base"),
+    e("m.P.foo.formula = 'lambda: r + 40'", "formula-set", "in-sub", "overrides-derived-cells"),
+    e("del m.B1.foo", "cells-delete", "in-base"),
+    e("m.P.remove_bases(m.B1)", "remove-bases"),
+    e("m.P.add_bases(m.B1)", "add-bases"),
+    e("del m.B1", "space-delete", "base-space"),
+    e("m.B1.foo.is_cached = False", "cached-flag", "in-base"),
+    sref("m.X", "w", 5, "in-itemspace-base"),
+    e("m.X.h.formula = 'lambda: w + kk * 200'", "formula-set", "in-itemspace-base"),
+    e(cells("m.X", "nn", "w + 1"), "cells-create", "in-itemspace-base"),
+    e("m.X.h = 77", "value-assign", "in-itemspace-base"),
+    e("m.D.formula = lambda k: {'base': _model.X, 'refs': {'kk': k + 1}}", "space-formula-set"),
+    e("m.D.formula = lambda k: {'base': _model.B1, 'refs': {'h': (lambda: 9)}}", "space-formula-set", "other-base"),
+    e("m.P.formula = lambda i, j=0: None", "space-formula-set", "parameters"),
+]))
